@@ -2,6 +2,7 @@
 Theorems: Resp.C02_roundtrip / C02_compositional (every pipeline of commands over arbitrary byte strings decodes to exactly the
 encoded arguments; parser state fully reset between commands); totality by the termination checker.
 Tie: resp.ParseStream over readers that split the stream arbitrarily vs the model's parseLoop on the complete stream."""
+import os
 import random
 
 from .. import core, gen, servesuite
@@ -87,10 +88,17 @@ def run(R, ctx):
                                "the connection is closed, nothing after it is executed (probed from another connection). Half-closed pipelines: 50-400 commands on a TCP connection whose sending "
                                "side is closed at once; every command written is decoded, executed and answered.", pubsub=False, halfclose=3)
     R.rule = rule + " Plus serve sessions: " + R.rule
+    if R.tier == "thorough" or os.environ.get("VERIF_IDLE_SWEEP"):
+        from .. import idlesweep
+        idlesweep.run(R, int(os.environ.get("VERIF_IDLE_SWEEP") or 62))
+        R.rule += " Plus (thorough tier) the idle/gap sweep on the real binary: one case per connection."
     if ctx.broken and not d["mismatches"]:
         R.violation("proof-broken", dict(kind="proof-broken", broken=ctx.broken,
                                          summary="theorem(s) no longer check: " + ", ".join(t for t, _ in ctx.broken)), found_input=False)
 
 
 def replay(R, payload):
+    if payload.get("engine") == "idlesweep":
+        from .. import idlesweep
+        return idlesweep.replay(R, payload)
     return core.generic_replay(R, payload)
